@@ -20,7 +20,8 @@ import time
 VERIF = os.path.dirname(os.path.dirname(os.path.abspath(__file__)))
 COQ = os.path.join(VERIF, "coq")
 BUILD = os.path.join(VERIF, ".build")
-REPO = "/repo"
+# the tree under verification; VERIF_REPO lets a scratch worktree be checked without touching /repo
+REPO = os.path.abspath(os.environ.get("VERIF_REPO") or "/repo")
 
 GOENV = dict(os.environ, GOFLAGS="-mod=mod", GOPROXY="off", GOSUMDB="off", GOTOOLCHAIN="local",
              CGO_ENABLED=os.environ.get("CGO_ENABLED", "1"))
@@ -83,23 +84,19 @@ def coq_files():
     return out
 
 
-def gen_facts():
-    """Regenerate coq/Generated/Facts.v from /repo's working tree (only rewritten when changed)."""
+def run_glbfacts(args):
+    """Build and run the source facts extractor (gen/glbfacts) on the tree under verification.
+    Returns (ok, stdout)."""
     gdir = os.path.join(VERIF, "gen", "glbfacts")
-    if not os.path.exists(os.path.join(gdir, "main.go")):
-        return True, "no extractor"
     exe = os.path.join(BUILD, "glbfacts")
-    rc, out, _ = run(["go", "build", "-o", exe, "."], cwd=gdir, env=GOENV, timeout=300)
+    with Lock("go"):
+        rc, out, _ = run(["go", "build", "-o", exe, "."], cwd=gdir, env=GOENV, timeout=300)
     if rc != 0:
         return False, "glbfacts build failed:\n" + out
-    rc, out, _ = run([exe, REPO], timeout=60)
-    target = os.path.join(COQ, "Generated", "Facts.v")
-    if rc != 0:
-        return False, "glbfacts failed:\n" + out
-    old = open(target).read() if os.path.exists(target) else None
-    if old != out:
-        open(target, "w").write(out)
-    return True, ""
+    p = subprocess.run([exe, REPO] + list(args), stdout=subprocess.PIPE, stderr=subprocess.PIPE, text=True, timeout=120)
+    if p.returncode != 0:
+        return False, "glbfacts failed:\n" + p.stdout + p.stderr
+    return True, p.stdout
 
 
 def gen_coqproject():
@@ -126,8 +123,7 @@ def gen_coqproject():
 def build_coq(timeout=2400):
     """make the whole development (no-op when up to date). Returns (ok, log, failing_files)."""
     with Lock("coq"):
-        ok, msg = gen_facts()
-        factmsg = "" if ok else msg
+        factmsg = ""
         gen_coqproject()
         rc, out, dt = run(["make", "-k", "-j16"], cwd=COQ, timeout=timeout)
         failing = re.findall(r'File "\./([^"]+)", line (\d+)', out) if rc != 0 else []
@@ -186,17 +182,25 @@ def build_ocaml(oid):
 
 
 def build_harness(pid, race=False):
-    """go build the property's harness command against /repo's current working tree (hooks on: -tags verif)."""
-    name = "h_" + pid.lower() + ("_race" if race else "")
+    """go build the property's harness command against the current working tree of the repository
+    under verification (hooks on: -tags verif)."""
+    tag = "" if REPO == "/repo" else "_" + hashlib.sha1(REPO.encode()).hexdigest()[:8]
+    name = "h_" + pid.lower() + ("_race" if race else "") + tag
     exe = os.path.join(BUILD, name)
     hdir = os.path.join(VERIF, "harness")
-    with Lock("go"):
-        gosum = os.path.join(hdir, "go.sum")
+    with Lock("go" + tag):
+        modfile = os.path.join(hdir, "go.mod")
+        if tag:
+            md = os.path.join(BUILD, "gomod" + tag)
+            os.makedirs(md, exist_ok=True)
+            modfile = os.path.join(md, "go.mod")
+            open(modfile, "w").write(open(os.path.join(hdir, "go.mod")).read().replace("=> /repo", "=> " + REPO))
+        gosum = modfile[:-4] + ".sum"
         try:
             shutil.copyfile(os.path.join(REPO, "go.sum"), gosum)
         except OSError:
             pass
-        cmd = ["go", "build", "-tags", "verif"] + (["-race"] if race else []) + ["-o", exe, "./cmd/" + pid.lower()]
+        cmd = ["go", "build", "-modfile=" + modfile, "-tags", "verif"] + (["-race"] if race else []) + ["-o", exe, "./cmd/" + pid.lower()]
         rc, out, dt = run(cmd, cwd=hdir, env=GOENV, timeout=900)
     return rc == 0, out, exe
 
@@ -219,7 +223,7 @@ def load_known():
 
 
 def write_replay(pid, payload):
-    d = os.path.join(VERIF, "replay")
+    d = os.path.join(VERIF, "replay") if REPO == "/repo" else os.path.join(BUILD, "alt-replay")
     os.makedirs(d, exist_ok=True)
     blob = json.dumps(payload, sort_keys=True, indent=1)
     h = hashlib.sha1(blob.encode()).hexdigest()[:10]
@@ -229,7 +233,8 @@ def write_replay(pid, payload):
 
 
 def write_evidence(pid, ev):
-    d = os.path.join(VERIF, "evidence")
+    # runs against a scratch tree (VERIF_REPO) never touch the committed evidence
+    d = os.path.join(VERIF, "evidence") if REPO == "/repo" else os.path.join(BUILD, "alt-evidence")
     os.makedirs(d, exist_ok=True)
     p = os.path.join(d, pid + ".json")
     tmp = p + ".tmp%d" % os.getpid()
